@@ -101,3 +101,17 @@ def assemble_model(self, asm_file, sfc_file, mapping=None):
     ghost("root_symbols_at_call", dict(self.resolver.scopes[0].symbols))
     ghost("rom_type_at_call", self.resolver.rom_type)
     return ghost_get("status")
+
+
+def pairs_of_hex_model(value):
+    """Assumed contract of Table.transform_byte_matches_to_int (it uses the zip(*[iter(s)] * 2) idiom, outside the interpreter's
+    subset): the list of the integers written by each consecutive pair of hex digits; an odd number of digits is an error.
+    Cross-checked against the real function by the bounded stand-in."""
+    if len(value) % 2 != 0:
+        raise ValueError("zip() argument 2 is shorter than argument 1")
+    out = []
+    i = 0
+    while i < len(value):
+        out.append(int(value[i:i + 2], 16))
+        i = i + 2
+    return out
